@@ -262,10 +262,23 @@ func Main(args []string) int {
 	if only == "" || strings.HasPrefix(only, "matrix/") {
 		mopts := gen.Options{Generator: gen.GenerateOptions{Features: genlab.Features("paths/client", "paths/server")}}
 		_ = mopts.Generator.ConvenientErrors.Set("off")
-		for mi, md := range buildMatrix(r, mopts, 90) {
+		single, live := buildMatrix(r, mopts, 90)
+		type namedDoc struct {
+			origin string
+			md     matrixDoc
+		}
+		var mdocs []namedDoc
+		for mi, md := range single {
+			mdocs = append(mdocs, namedDoc{fmt.Sprintf("matrix/params-%d", mi), md})
+		}
+		for mi, md := range buildMultiMatrix(r, mopts, live, r.N(160, 1200), 80) {
+			mdocs = append(mdocs, namedDoc{fmt.Sprintf("matrix/multi-params-%d", mi), md})
+		}
+		for _, nd := range mdocs {
+			md := nd.md
 			n++
 			key := fmt.Sprintf("p%04d", n)
-			origin := fmt.Sprintf("matrix/params-%d", mi)
+			origin := nd.origin
 			if only != "" && !strings.HasPrefix(only, origin+"|") {
 				continue
 			}
